@@ -5,6 +5,7 @@ from __future__ import annotations
 import ast
 
 from vlib.core import AnalysisError, Report
+from vlib.flow import parent_map
 from vlib.guards import GuardWalker
 from vlib.match import X, closure, deref, has_call, inlined_bodies, nodes
 from vlib.srcindex import SourceIndex, attr_chain, unparse, walk_no_nested, mangle
@@ -175,6 +176,7 @@ def run(rep: Report, tier: str) -> None:
 	for m in restore_uses_same:
 		calls = [attr_chain(n.func) for n in ast.walk(m.node) if isinstance(n, ast.Call)]
 		ident.check('self._gen_filepath' in calls, f'symbols:{m.name}-uses-gen_filepath', m.where, f'SymbolDBPersistor.{m.name} no longer derives the file path from _gen_filepath (store and restore must agree on the identity-bearing name)')
+	rule_module_selection(rep, idx)
 	rep.extra_coverage['effects_reached'] = total_effects
 	rep.extra_coverage['entries'] = [e.qualname for e in entries]
 
@@ -245,3 +247,46 @@ def check_identity(idx, typer, rule, f, call: ast.Call) -> None:
 	params = f.params()
 	if 'parser' in params:
 		rule.check(any('mtime' in s and 'grammar' in s for s in ident_src), f'{tag}:grammar-stamp', where, f'the tree cache identity {ident_src} does not include the grammar mtime although the factory parses with a grammar-dependent parser')
+
+
+def rule_module_selection(rep: Report, idx) -> None:
+	"""Each symbol cache file is keyed by ONE module's identity and written from SymbolDB.to_json(for_module_path=M). It must hold the symbols of M
+	and nothing else: a row of another module stored in M's file is restored later under M's identity, after that other module has been edited, and
+	overwrites its freshly built symbols. Dotted module paths are prefixes of one another (`proj.shape` / `proj.shapes`), so M is selected by equality
+	with the key's module part, never by a prefix/substring test."""
+	from vlib.match import X, nodes
+	db = idx.mod('rogw/tranp/semantics/reflection/db.py')
+	rep.consulted(db.relpath)
+	r = rep.rule('C05/module-selection-exact', 'in SymbolDB every use of a module-path parameter that selects keys is an equality / membership-in-list test or is passed on; never a prefix, suffix or substring test', floor=8)
+	cls = db.cls('SymbolDB')
+	for name, defs in cls.methods.items():
+		f = defs[-1]
+		params = [p_ for p_ in f.params() if p_.endswith('module_path')]
+		if not params:
+			continue
+		fx = X(f)
+		pm_ = parent_map(fx)
+		for n in nodes(fx, ast.Name):
+			if n.id not in params or not isinstance(n.ctx, ast.Load):
+				continue
+			par = pm_.get(id(n))
+			key = f'{name}:{n.id}@{unparse(par)[:50]}'
+			where = (db.relpath, n.lineno)
+			if isinstance(par, ast.Compare):
+				ops_ok = all(isinstance(o, (ast.Eq, ast.NotEq, ast.Is, ast.IsNot)) for o in par.ops)
+				if ops_ok:
+					r.ok(key, where)
+					continue
+				if len(par.ops) == 1 and isinstance(par.ops[0], (ast.In, ast.NotIn)):
+					if par.left is n:
+						r.ok(key, where, message='member of a collection')  # collections of module paths: self.__completed, list comprehensions
+						continue
+					r.violate(key, where, f'SymbolDB.{name} tests `{unparse(par)}`: a substring test with the module path; `proj.shape` is contained in every key of `proj.shapes`, so the rows of that module are selected too and end up in the cache file of `proj.shape`', unparse(par))
+					continue
+			if isinstance(par, ast.Call) and n in par.args and isinstance(par.func, ast.Attribute) and par.func.attr in ('startswith', 'endswith', 'find', 'index', 'count', 'split', 'partition', 'replace', 'removeprefix'):
+				r.violate(key, where, f'SymbolDB.{name} selects with `{unparse(par)}`: dotted module paths are prefixes of one another (`proj.shape` / `proj.shapes`), so the symbols of the longer module are exported into the cache file of the shorter one and restored, stale, over freshly built symbols after the longer module is edited', unparse(par))
+				continue
+			if isinstance(par, ast.Attribute) and par.attr in ('startswith', 'endswith', 'find', 'index', 'count', 'split', 'partition', 'replace', 'removeprefix'):
+				r.violate(key, where, f'SymbolDB.{name} applies `{unparse(par)}` to the module path: a prefix/substring operation cannot tell `proj.shape` from `proj.shapes`', unparse(par))
+				continue
+			r.ok(key, where, message='passed on / truth test')
